@@ -8,6 +8,7 @@ import (
 
 	"github.com/monshunter/goat/pkg/config"
 	"github.com/monshunter/goat/pkg/utils"
+	"github.com/monshunter/goat/pkg/verifhook"
 )
 
 // CleanExecutor is the executor for the clean
@@ -262,6 +263,7 @@ func (c *CleanExecutor) clean() error {
 
 	log.Infof("Total cleaned files: %d", len(c.files))
 	log.Debugf("Removing goat generated file: %s", c.cfg.GoatGeneratedFile())
+	verifhook.Boundary("remove", c.cfg.GoatGeneratedFile())
 	os.Remove(c.cfg.GoatGeneratedFile())
 	// remove goat package if empty
 	log.Debugf("Checking if goat package is empty: %s", c.cfg.GoatPackagePath)
@@ -276,6 +278,7 @@ func (c *CleanExecutor) clean() error {
 	}
 	if empty {
 		log.Debugf("Removing goat package: %s", c.cfg.GoatPackagePath)
+		verifhook.Boundary("removeall", c.cfg.GoatPackagePath)
 		os.RemoveAll(c.cfg.GoatPackagePath)
 	}
 	return nil
